@@ -264,8 +264,10 @@ P_LIB_API PUThreadKey *	p_uthread_local_new	(PDestroyFunc		free_func);
  * @param key TLS reference key to free.
  * @since 0.0.1
  *
- * It doesn't remove the TLS key itself but only removes a reference used to
- * access the TLS slot.
+ * It releases the reference together with the native TLS slot created on the
+ * first access through it. Values which are still stored in the slot by running
+ * threads are not passed to the destroy notification call anymore, release them
+ * before freeing the key.
  */
 P_LIB_API void		p_uthread_local_free	(PUThreadKey		*key);
 
